@@ -107,6 +107,22 @@ CHECKS = {
         note="Trusted: TLC with CommunityModules overrides, pysim as executor, the recording testbench, the frozen "
              "check-value table transcribed from the repository snapshot (no network). Widths above 4 are sampled, not "
              "exhaustive."),
+    "C04": dict(
+        category="translation_validation", design_ref="DESIGN.md section 4 (C04)",
+        technique="explicit TLA+ semantics of the emitted RTLIL subset (Rtlil) evaluated by TLC over the flattened "
+                  "netlist of each design; RtlilTrace steps every design through the stimulus recorded in pysim and "
+                  "compares every port after every step",
+        text="For each generated design (batches of TLC-simulated AmExpr programs, closed AmStmt programs incl. FSMs, "
+             "AmDesign behaviours with pos/neg edges, sync/async resets and inserter/renamer stacks, and seeded random "
+             "module hierarchies with signals crossing module boundaries, partially driven, undriven and zero-width "
+             "signals) the RTLIL text of rtlil.convert() is parsed by an independent strict reader, flattened, and "
+             "TLC evaluates it cell by cell under the published cell/process/register semantics for the same input and "
+             "clock/reset sequence that was applied in pysim; every top-level output and register must match after "
+             "every step, and the settled values must solve every node equation (the evaluation order is not trusted). "
+             "As C01-C03 bind pysim to the language specification, this closes the triangle spec = pysim = RTLIL.",
+        note="Trusted: TLC, the RTLIL reader and the structural flattening (hierarchy expansion, sigspec to net lists), "
+             "Rtlil.tla as a rendering of the Yosys cell library documentation. Values < 2^30; x/z digits read as 0; "
+             "memories, $print/$check text, foreign instances and inout ports are not evaluated."),
     "C05": dict(
         category="model_checking", design_ref="DESIGN.md section 4 (C05)",
         technique="same TLC-enumerated AmExpr programs as C01, evaluated by the testbench tree walker ctx.get(expr); "
@@ -156,6 +172,35 @@ CHECKS = {
              "changes come from a harness source register because direct testbench races are unspecified). Pulse "
              "contract assumes an output-clock edge strictly between consecutive input pulses; power-on output of the "
              "async synchronisers adopted from observation."),
+    "C18": dict(
+        category="model_checking", design_ref="DESIGN.md section 4 (C18)",
+        technique="TLA+ port algebra and buffer equations (IoBuf), builder enumeration (IoBufCases), FFBuffer state machine "
+                  "(IoBufFF) model-checked with mutants; cases replayed on io.SimulationPort/Buffer/FFBuffer in pysim, FF "
+                  "edge tours and exported netlists of real ports validated by TLC against IoBufTrace",
+        text="TLC enumerates every port expression of depth <= 2 over simulation-port leaves of width 0..2 (0..3 thorough) "
+             "with every inversion mask and direction built from slicing, indexing, ~ and +, proves the algebra theorems "
+             "(involution, slice/concat recovery, width additivity, direction rules, loopback) and one-cycle latency of "
+             "the FFBuffer machine over all event sequences. Every expression is rebuilt from real SimulationPort objects "
+             "(len/direction/invert compared literally); Buffer/FFBuffer constructors and pysim runs are compared wire by "
+             "wire with TLC-computed values; edge tours of the FFBuffer graph, random runs and NIR netlists on "
+             "SingleEnded/Differential ports (one IOBuffer per bit, inversion on the fabric side) are judged by IoBufTrace.",
+        note="Trusted: TLC, pysim as executor, the recording testbench (inputs set before the clock), build_netlist and "
+             "the cell exporter. Not covered: DDRBuffer, platform overrides, power-on register contents, lo > hi slices."),
+    "C20": dict(
+        category="model_checking", design_ref="DESIGN.md section 4 (C20)",
+        technique="TLA+ rendering of the format mini-language (Fmt) enumerated field by field (FmtCases) with round-trip "
+                  "theorems and mutants; timing machine FmtTiming over a catalogue of nestings; every case and history "
+                  "replayed on Format/Print/Assert/Assume in pysim; three-way triangulation with Python's str.format",
+        text="TLC builds the stated format grammar (fill, align, sign, #, 0, width, grouping, type b/o/d/x/X/c/s) x shapes "
+             "with the expected class (accepted / rejected) and text per value, and all (catalogue program, input history) "
+             "pairs with the expected Print emission list and Assert/Assume stop edge; width/round-trip/grouping theorems "
+             "hold on every state. Every case is replayed on the real Format (construction accepted or rejected), the text "
+             "printed by a sync Print and carried by a failing Assert/Assume in pysim is compared literally with TLC's "
+             "character codes, and emission/stop instants are compared for every history. Fmt is continuously "
+             "triangulated against Python's own str.format (a disagreement is a machinery failure, never a violation).",
+        note="Trusted: TLC, Fmt.tla as a rendering of Python's format mini-language (triangulated at run time), the RFC-50 "
+             "subset classification of accepted specs, pysim testbench scheduling. Excluded: c on surrogates / beyond "
+             "U+10FFFF, s on invalid UTF-8, combinational Print timing."),
     "C12": dict(
         category="model_checking", design_ref="DESIGN.md section 4 (C12)",
         technique="TLA+ spec (FifoObs/Fifo/FifoImpl) model-checked by TLC; edge-covering tours of the model graph "
